@@ -161,3 +161,26 @@ Example c10_nonvacuous :
   led (f_s f) AUC_C = 0 /\ led (f_s f) AUC_D = 0 /\ led (f_s f) BRN_D = 1000000 /\
   led (f_s f) COL_D = 108000 /\ led (f_s f) KEE_D = 12000 /\ led (f_s f) OWN_C = 195908.
 Proof. eexists. split; [vm_compute; reflexivity|]. vm_compute. repeat split; reflexivity. Qed.
+
+(* ------------------------------------------------------------------------------------------ *)
+(* Generation 1 (x/auction): the price update (dutch.go:495-503, dutch_lend.go likewise) is the same
+   arithmetic with the end price stored in the record, so the price clauses and the refutation carry
+   over.  PARTIAL: generation 1 is modelled for the price path only (Model/DutchV1.v); its bid path
+   (both dust rules, the target-reached recomputation) and close are not modelled and generation 1
+   is not driven by the harness (the price functions are unexported). *)
+From Comdex Require Import Model.DutchV1 Proofs.DutchProofsV1.
+
+Theorem c10_v1_price_monotone_partial : forall top cusp dur t1 t2 p1 p2,
+  fits_dec (dmul top cusp) = true ->
+  0 <= v1_end_price top cusp < top -> 0 <= dur -> 0 <= t1 -> t1 <= t2 -> t2 <= dur ->
+  v1_posted_price top (v1_end_price top cusp) dur t1 = Some p1 ->
+  v1_posted_price top (v1_end_price top cusp) dur t2 = Some p2 ->
+  p2 <= p1 /\ p1 <= top /\ 0 <= p2.
+Proof. exact v1_posted_monotone. Qed.
+Print Assumptions c10_v1_price_monotone_partial.
+
+Theorem c10_v1_end_price_refuted : exists top cusp dur p,
+  0 <= v1_end_price top cusp < top /\ 0 < dur /\
+  v1_posted_price top (v1_end_price top cusp) dur dur = Some p /\ p < v1_end_price top cusp.
+Proof. exact v1_end_price_refuted. Qed.
+Print Assumptions c10_v1_end_price_refuted.
